@@ -212,7 +212,7 @@ def path_order(ctx, arg):
         clean = arg.get('state') == 'clean_at_tag'
         v, txt = rendered(I, zerv, fmt, text=clean)
         m0 = w.get_model()
-        ctx.res.witness = dict(case=case.concrete(m0), out=mstr(m0, txt) if clean else None, fmt=fmt)
+        ctx.res.witness = dict(case=case.concrete(m0), out=mstr(m0, txt) if clean else None, fmt=fmt, arg=arg)
         base = [case.x, case.y, case.z]
         if arg.get('state') == 'clean_at_tag':
             from models_fmt import int_to_chars
